@@ -299,8 +299,8 @@ macro_rules! serde_harness {
             assert!(tape.len == 2 + 2 * $n, "token count == 2 + 2 * #fields (nothing else is emitted)");
             assert!(is_begin(tape.toks[0], $sname, $n), "token 0 == StructBegin(<type name>, #fields)");
             $(
-                assert!(is_field(tape.toks[1 + 2 * $idx], $fname), concat!("field #", stringify!($idx), " is named `", $fname, "`"));
-                assert!($isv(tape.toks[2 + 2 * $idx], x.$f), concat!("value of field `", $fname, "` holds the bits of that part"));
+                assert!(is_field(tape.toks[1 + 2 * $idx], $fname), "field names are the documented ones, in the documented order");
+                assert!($isv(tape.toks[2 + 2 * $idx], x.$f), "the value token after each field name holds the bits of that part");
             )*
             assert!(is_end(tape.toks[1 + 2 * $n]), "last token == StructEnd");
 
@@ -308,7 +308,7 @@ macro_rules! serde_harness {
             let y = <$ty as Deserialize>::deserialize(&mut de);
             match y {
                 Ok(y) => {
-                    $( assert!($bits(y.$f) == $bits(x.$f), concat!("round trip restores `", $fname, "` bit-for-bit")); )*
+                    $( assert!($bits(y.$f) == $bits(x.$f), "round trip restores every part bit-for-bit"); )*
                     assert!(de.pos == tape.len, "deserialize consumes every token");
                 }
                 Err(_) => assert!(false, "deserialize succeeds on the serialized tokens"),
